@@ -24,7 +24,7 @@ import MachSysS.gymir_result_pb2 as proto_gymir
 from RunFeemsSim.machinery_calculation import MachineryCalculation
 
 THEOREMS = ["diffs_length", "hold_dt", "hold_power", "last_sample_unused", "total_duration", "routes_agree_scalar", "routes_agree_series",
-            "aux_scalar_is_constant", "aux_series_truncated", "split_sum", "propulsors_receive_all", "propulsors_legacy_double", "same_inputs_same_results"]
+            "aux_scalar_is_constant", "aux_series_truncated", "proto_closing_aux_irrelevant", "proto_closing_aux_legacy", "split_sum", "propulsors_receive_all", "propulsors_legacy_double", "same_inputs_same_results"]
 
 
 def gen_case(rng, idx):
@@ -66,11 +66,14 @@ def gen_case(rng, idx):
         for i in range(n):
             if rng.random() < (0.6 if i == n - 1 else 0.2):
                 aux_series[i] = 0.0
-        if not any(aux_series):
+        if not any(aux_series[:-1]):
+            # (a message whose held samples all carry 0 is read as "no per-sample value": the message-level value holds - in proto3 an
+            # unset number is 0; the closing sample does not count, D134)
             aux_series[0] = float(np.round(0.05 * etotal, 1))
     P = [0.0 if rng.random() < 0.1 else p for p in P]       # quay / drifting samples
     return {"idx": idx, "kind": kind, "spec": spec, "t": t, "P": P, "aux_mode": aux_mode, "aux": aux, "aux_series": aux_series,
             "reused_calculator": bool(rng.random() < 0.5),
+            "proto_closing_aux": (float(np.round(rng.uniform(1.0, 50.0), 1)) if (aux_series is None and n >= 3 and rng.random() < 0.35) else None),
             "op_profile": str(rng.choice(["none", "same", "other"]))}
 
 
@@ -102,6 +105,9 @@ def routes(case):
 
     def proto(mc):
         per = [0.0] * n if aux_series is None else aux_series
+        if aux_series is None and case.get("proto_closing_aux"):
+            # the closing record carries a value of its own: it closes the last interval and decides nothing (D134)
+            per = per[:-1] + [float(case["proto_closing_aux"])]
         msg = proto_gymir.TimeSeriesResult(
             propulsion_power_timeseries=[proto_gymir.PropulsionPowerInstance(epoch_s=float(a), propulsion_power_kw=float(b), auxiliary_power_kw=float(c)) for a, b, c in zip(t, P, per)],
             auxiliary_power_kw=aux_scalar)
@@ -132,6 +138,7 @@ def run_case(ctx, case, model=True):
     where = {"case": case}
     ctx.count("plant", case["kind"])
     ctx.count("aux", case["aux_mode"])
+    ctx.count("proto_closing_record_carries_aux", bool(case.get("proto_closing_aux")))
     ctx.count("switchboards", len({c["swb"] for c in case["spec"]["electric"]}))
     n = len(case["t"])
     results, prepared = {}, {}
@@ -204,6 +211,8 @@ def run_case(ctx, case, model=True):
                 a = ctx.model.call("profile.series", t=[enc(x) for x in t], P=[enc(x) for x in P], aux=aux, **common)
             elif name == "proto":
                 per = [0.0] * n if case["aux_series"] is None else case["aux_series"]
+                if case["aux_series"] is None and case.get("proto_closing_aux"):
+                    per = per[:-1] + [float(case["proto_closing_aux"])]
                 a = ctx.model.call("profile.proto", t=[enc(x) for x in t], P=[enc(x) for x in P], aux_per_sample=[enc(x) for x in per], aux=enc(case["aux"]), **common)
             else:
                 aux = enc(case["aux"]) if case["aux_series"] is None else [enc(x) for x in case["aux_series"][:-1]]
